@@ -157,11 +157,21 @@ func ruleCounterGuardsExact(c *Ctx) {
 	for _, call := range p.callsIn(cb, "objects.Queue.incRunningApps", "objects.Queue.decRunningApps") {
 		n++
 		st := p.StateAt(cb, call)
-		atoms := p.AllAtoms(st)
+		// presence checks (x != nil, comma-ok results) are not decisions about the transition
+		var atoms []string
+		for _, a := range p.AllAtoms(st) {
+			if _, x, y, isCmp := p.cmpParts(a); isCmp && (p.isNilExpr(x) || p.isNilExpr(y)) {
+				continue
+			}
+			if id, isID := unparen(a.E).(*ast.Ident); isID && id.Name == "ok" {
+				continue
+			}
+			atoms = append(atoms, p.Src(a.E))
+		}
 		ok := len(atoms) == 1
 		if ok {
-			src := p.Src(atoms[0].E)
-			ok = strings.Contains(src, "Running.String()") && (strings.HasPrefix(src, "event.Src") || strings.HasPrefix(src, "event.Dst"))
+			src := atoms[0]
+			ok = strings.Contains(src, "Running.String()") && (strings.Contains(src, "event.Src") || strings.Contains(src, "event.Dst"))
 		}
 		c.Check("C11.c", "only the Running-state test guards "+shortFn(p.CalleeName(call)), call, ok, "the counter update runs under the conditions %v, expected exactly `event.Src/Dst != Running`: a transition that is exempted is never counted (or never given back) on any level", p.FactStrings(st))
 	}
@@ -421,7 +431,7 @@ func ruleWhatIfOnDuplicate(c *Ctx) {
 			continue
 		}
 		dups := map[interface{}]bool{}
-		for _, call := range p.callsIn(fn, "objects.Preemptor.duplicateQueueSnapshots") {
+		for _, call := range p.callsInShallow(fn, "objects.Preemptor.duplicateQueueSnapshots") {
 			if as, ok := p.Parent(call).(*ast.AssignStmt); ok && len(as.Lhs) == 1 {
 				if id, isID := as.Lhs[0].(*ast.Ident); isID {
 					dups[p.ObjOf(id)] = true
@@ -438,7 +448,7 @@ func ruleWhatIfOnDuplicate(c *Ctx) {
 			id, ok := unparen(e).(*ast.Ident)
 			return ok && dups[p.ObjOf(id)]
 		}
-		for _, call := range p.callsIn(fn, methods...) {
+		for _, call := range p.callsInShallow(fn, methods...) {
 			n++
 			id, isID := unparen(Recv(call)).(*ast.Ident)
 			ok := false
